@@ -330,6 +330,24 @@ def encode : Nat → Bool → Ty → Val → PO Wire
       pure (.arr ws)
     | _, _ => PO.fail "unknown-type"
 
+/-- `for k, v := range raw { c.Raw[k] = v }` (custom_encode.go:47-49) -/
+def mergeRaw (old new : List (String × Wire)) : List (String × Wire) :=
+  new.foldl (fun m kv => setKey kv.1 kv.2 m) old
+
+/-- `(*Claims).EncodeCustom` (custom_encode.go:29-53) as a function of the state `c.Raw`
+    (`none` = nil map): the value is encoded, must come out as a JSON object, and every member of it
+    is written over `c.Raw`; members of `c.Raw` under other names are untouched.  Returns the new
+    `c.Raw`; on an error `c.Raw` is unchanged (the caller keeps the old state). -/
+def encodeCustom (fuel : Nat) (raw : Option (List (String × Wire))) (addr : Bool) (t : Ty) (v : Val) :
+    PO (List (String × Wire)) := do
+  let w ← encode fuel addr t v
+  match w with
+  | .obj ret =>
+    match raw with
+    | none => pure ret
+    | some old => pure (mergeRaw old ret)
+  | _ => PO.fail "invalid-type"
+
 /-! ### decode -/
 
 def b64dec (s : String) : PO Bytes := do
